@@ -53,6 +53,26 @@ Proof. exact class_static_is_lexical. Qed.
 Theorem C11_desugar_idempotent : forall c, desugar_class (desugar_class c) = desugar_class c.
 Proof. exact desugar_class_idem. Qed.
 
+(* the var block is found wherever it stands among the leading imports, consts and types (ClassFieldsDecl), so the
+   struct is the same whatever precedes it *)
+Theorem C11_class_struct_any_order : forall pre s rest,
+  forallb skipped pre = true -> class_struct (pre ++ TVar s :: rest) = class_fields s.
+Proof. exact class_struct_any_order. Qed.
+
+(* BEHAVIOUR with two instances (own fields each, shared globals, interleaved calls): class form = explicit form *)
+Theorem C11_class_equiv_two_instances : forall fuel c globals calls,
+  run2_class fuel c globals calls = run2_explicit fuel c globals calls.
+Proof. exact class_equiv_two. Qed.
+
+Theorem C11_static_scope_is_lexical_two_instances : forall fuel c globals calls,
+  run2_class fuel c globals calls = run2_dyn fuel c globals calls.
+Proof. exact class_lexical_two. Qed.
+
+Example C11_struct_order_example :
+  class_struct [TImport; TConst; TType; TVar [SpIdents [[110]%N] (Some [105;110;116]%N) None]; TType; TFunc] <> [] /\
+  class_struct [TImport; TFunc; TVar [SpIdents [[110]%N] (Some [105;110;116]%N) None]] = [].
+Proof. split; [vm_compute; discriminate|reflexivity]. Qed.
+
 (* ---- non-vacuity ---- *)
 Definition w : str := [119]%N. Definition h : str := [104]%N. Definition n : str := [110]%N.
 Definition a : str := [97]%N. Definition gv : str := [103;118]%N.
@@ -104,3 +124,6 @@ Print Assumptions C11_class_plain_is_method.
 Print Assumptions C11_class_equiv.
 Print Assumptions C11_static_scope_is_lexical.
 Print Assumptions C11_desugar_idempotent.
+Print Assumptions C11_class_struct_any_order.
+Print Assumptions C11_class_equiv_two_instances.
+Print Assumptions C11_static_scope_is_lexical_two_instances.
